@@ -508,8 +508,9 @@ func (d *Datastore) TransactionCancel(ctx context.Context, transactionId string)
 
 func loadIntendedStoreHighestPrio(ctx context.Context, tscc tree.TreeCacheClient, r *tree.RootEntry, pathKeySet *tree.PathSet, skipIntents []string) error {
 
-	// Get all entries of the already existing intent
-	cacheEntries := tscc.ReadCurrentUpdatesHighestPriorities(ctx, pathKeySet.GetPaths(), 2)
+	// Get the highest priority entries of the involved paths. The entries of the skipped intents may occupy
+	// that many of the highest priorities of a path, so one more priority is needed to see the best remaining entry.
+	cacheEntries := tscc.ReadCurrentUpdatesHighestPriorities(ctx, pathKeySet.GetPaths(), uint64(len(skipIntents)+1))
 
 	flags := tree.NewUpdateInsertFlags()
 
